@@ -285,11 +285,17 @@ impl Runtime {
             };
 
             if thread.can_run() {
+                #[cfg(abra_verif)]
+                let verif_pre = verif_sched::pre(&thread);
                 thread.run_n_steps(1);
+                #[cfg(abra_verif)]
+                verif_sched::post(&thread, verif_pre);
                 remaining_steps -= 1;
                 steps_run += 1;
                 skipped_threads = 0;
             } else {
+                #[cfg(abra_verif)]
+                verif_sched::log(|| verif_sched::Event::Skip { thread: thread.id });
                 skipped_threads += 1;
             }
 
@@ -346,6 +352,8 @@ impl Runtime {
 
     fn drain_new_threads(&mut self) -> bool {
         while let Ok(new_thread) = self.new_threads.try_recv() {
+            #[cfg(abra_verif)]
+            verif_sched::log(|| verif_sched::Event::Enqueue { thread: new_thread.id });
             if self.finish_thread_turn(new_thread) {
                 return true;
             }
@@ -2776,5 +2784,134 @@ impl Display for VmErrorKind {
                 write!(f, "internal error: {s}")
             }
         }
+    }
+}
+
+/// Verification hook (compiled only with `--cfg abra_verif`; additive, read-only): a thread-local
+/// log of scheduler turns taken by `Runtime::run_threads_round_robin` — which green thread was
+/// given a turn or skipped, and what kind of instruction the executed step was.
+#[cfg(abra_verif)]
+pub mod verif_sched {
+    use super::{Instr, Value, VmGreenThread};
+    use std::cell::RefCell;
+    use std::sync::Arc;
+
+    #[derive(Debug, Clone, PartialEq)]
+    pub enum StepKind {
+        Other,
+        /// `ConstructChannel`; payload = identity of the new queue
+        NewChan(usize),
+        /// `ChannelRead` that found the queue empty (pc rewound)
+        ReadBlocked(usize),
+        /// `ChannelRead` that popped (bits, tag) — the raw value as stored in the queue
+        ReadOk(usize, u64, u8),
+        /// `ChannelWrite` of (bits, tag)
+        Write(usize, u64, u8),
+        Spawn,
+        Host(u16),
+        Stop,
+        /// the step set the thread's error; payload = rendered error
+        Error(String),
+    }
+
+    #[derive(Debug, Clone, PartialEq)]
+    pub enum Event {
+        /// a thread received from the new-thread queue was handed to `finish_thread_turn`
+        Enqueue { thread: u64 },
+        /// the thread at the head of the run queue could not run
+        Skip { thread: u64 },
+        /// the thread at the head of the run queue executed one instruction
+        Step { thread: u64, kind: StepKind },
+    }
+
+    thread_local! {
+        static LOG: RefCell<Option<Vec<Event>>> = const { RefCell::new(None) };
+    }
+
+    /// start (or restart) logging on the calling OS thread
+    pub fn start() {
+        LOG.with(|l| *l.borrow_mut() = Some(Vec::new()));
+    }
+    /// stop logging
+    pub fn stop() {
+        LOG.with(|l| *l.borrow_mut() = None);
+    }
+    /// take the events logged since the last call
+    pub fn take() -> Vec<Event> {
+        LOG.with(|l| l.borrow_mut().as_mut().map(std::mem::take).unwrap_or_default())
+    }
+    fn enabled() -> bool {
+        LOG.with(|l| l.borrow().is_some())
+    }
+    pub(super) fn log(f: impl FnOnce() -> Event) {
+        LOG.with(|l| {
+            if let Some(v) = l.borrow_mut().as_mut() {
+                v.push(f());
+            }
+        });
+    }
+
+    fn chan_id(v: Option<&Value>) -> usize {
+        match v {
+            Some(v) if v.1 == super::ValueTag::Channel => {
+                let obj = unsafe { &*(v.0 as *const super::ChannelObject) };
+                Arc::as_ptr(&obj.data) as usize
+            }
+            _ => 0,
+        }
+    }
+
+    pub(super) struct Pre {
+        kind: StepKind,
+    }
+
+    /// classify the instruction the thread is about to execute
+    pub(super) fn pre(t: &VmGreenThread) -> Option<Pre> {
+        if !enabled() {
+            return None;
+        }
+        let n = t.value_stack.len();
+        let kind = match t.shared.program[t.pc.get()] {
+            Instr::ConstructChannel => StepKind::NewChan(0),
+            Instr::ChannelRead => {
+                let id = chan_id(t.value_stack.last());
+                let front = match t.value_stack.last() {
+                    Some(v) if v.1 == super::ValueTag::Channel => {
+                        let obj = unsafe { &*(v.0 as *const super::ChannelObject) };
+                        obj.data.lock().unwrap().front().copied()
+                    }
+                    _ => None,
+                };
+                match front {
+                    Some(v) => StepKind::ReadOk(id, v.0, v.1 as u8),
+                    None => StepKind::ReadBlocked(id),
+                }
+            }
+            Instr::ChannelWrite => {
+                let id = if n >= 2 { chan_id(t.value_stack.get(n - 2)) } else { 0 };
+                match t.value_stack.last() {
+                    Some(v) => StepKind::Write(id, v.0, v.1 as u8),
+                    None => StepKind::Write(id, 0, 0),
+                }
+            }
+            Instr::SpawnTask(..) => StepKind::Spawn,
+            Instr::HostFunc(n) => StepKind::Host(n),
+            Instr::Stop => StepKind::Stop,
+            _ => StepKind::Other,
+        };
+        Some(Pre { kind })
+    }
+
+    pub(super) fn post(t: &VmGreenThread, pre: Option<Pre>) {
+        let Some(pre) = pre else { return };
+        let kind = if let Some(e) = &t.error {
+            StepKind::Error(e.to_string())
+        } else {
+            match pre.kind {
+                StepKind::NewChan(_) => StepKind::NewChan(chan_id(t.value_stack.last())),
+                k => k,
+            }
+        };
+        log(|| Event::Step { thread: t.id, kind });
     }
 }
